@@ -38,7 +38,13 @@ CLAIM = dict(
          'Python int, np.int64, np.int32, np.intp, 0-d array or None (valid, out of range, negative); cores C-ordered, '
          'F-ordered, non-contiguous views, int64 (and, search only, float32) — also mixed per core; the same array object '
          'several times in the list ([A] + [G]*(d-2) + [B]); list or tuple; inplace True / False; the frame clause compares '
-         'every other core bitwise, aliased ones included.',
+         'every other core bitwise, aliased ones included. HISTORIES (search): orthogonalize applied to its own result at '
+         'other pivots and twice at the same pivot (all clauses again, ranks and Gram matrices stable), repeated calls on '
+         'the same argument objects (bit-identical afterwards), the sweep made by hand with in-place resp. copying single '
+         'steps (+ core_stab) equals orthogonalize (cores to 1e-12, p exactly). SCALES / degenerate shapes: one core at '
+         '2^+-(400..480) with and without use_stab (correspondence and search), a zero core at every position, mode size 1 '
+         'at the pivot, rank 1, d = 1, d = 2, pivots at both ends; subnormal inputs are NOT generated (their products lose '
+         'bits, the 1e-9 reference comparison does not apply).',
     note='Trusted: Coq kernel, vm_compute for case evaluation, the hand-written model (validated by the correspondence), '
          'the oracle contracts qr_ok / rq_ok / ilog2k_ok (validated on every recorded call; np.log2 meets the log2 '
          'contract with lo = 1 - 2^-53), IEEE rounding is not modelled (theorems speak about exact arithmetic). The '
@@ -146,7 +152,7 @@ def tt_of_desc(D):
 # ----------------------------------------------------------------------------
 
 FAMILIES = ['generic', 'generic', 'over', 'deficient', 'n1', 'd2', 'zero', 'int', 'scaled', 'scaled_mixed', 'd1', 'r1',
-            'extreme', 'alias']
+            'extreme', 'alias', 'single']
 
 
 def rand_core(rng, r1, n, r2, kind='float'):
@@ -198,6 +204,9 @@ def gen_tt(rng, fam, big=False):
         scales = [sg * rng.randint(250, 300) for _ in range(d)]
     if fam == 'scaled_mixed':
         scales = [rng.choice([-1, 1]) * rng.randint(200, 300) for _ in range(d)]
+    if fam == 'single':       # ONE core carries 2^+-(400..480), representable with and without stabilisation
+        scales = [0] * d
+        scales[rng.randrange(d)] = rng.choice([-1, 1]) * rng.randint(400, 480)
     if fam == 'extreme':      # every core far below 1e-100 or far above 1e+100 (pairwise products stay representable)
         sg = rng.choice([-1, 1])
         scales = [sg * rng.randint(335, 420) for _ in range(d)]
@@ -727,6 +736,15 @@ def check_orth(tn, Y0, scales, k, stab, form=None):
     r = tn.orthogonalize(Y, kw, use_stab=True) if stab else tn.orthogonalize(Y, kw)
     if len(Y) != len(snap) or any(not same_bytes(a, b) for a, b in zip(Y, snap)):
         return ('orthogonalize modified its argument', None, None)
+    return verify_orth(snap, scales, r, kk, stab, lo)
+
+
+def verify_orth(Y, scales, r, kk, stab, lo=False):
+    """every clause of the property for the result r of orthogonalize(Y, kk, use_stab=stab); Y: the cores as handed over
+    (saved copy), carrying the power-of-two scales [scales] corewise"""
+    Y0 = [np.asarray(G, dtype=float) * 2.0 ** -s for G, s in zip(Y, scales)]
+    tg, td = (2e-4, 2e-4) if lo else (1e-10, 1e-9)
+    d = len(Y)
     if stab:
         if not (isinstance(r, tuple) and len(r) == 2):
             return ('orthogonalize(use_stab=True) does not return a pair (Z, p)', repr(type(r)), None)
@@ -761,6 +779,9 @@ def check_orth(tn, Y0, scales, k, stab, form=None):
     # same tensor: Y = 2^sum(scales) dense(Y0); result 2^p dense(Z)
     D0 = dense(Y0)
     sc = float(np.max(np.abs(D0))) if D0.size else 0.0
+    # orthogonalisation is backward stable relative to the product of the core norms, not to the entries of the result:
+    # a tensor that vanishes by cancellation is reproduced to 1e-13 of that natural scale (a few hundred ulps)
+    nat = float(np.prod([np.linalg.norm(G.ravel()) for G in Y0])) * (1e-6 if lo else 1e-13)
     shift = p - sum(scales)
     if stab or abs(shift) <= 1000:
         if stab:
@@ -776,12 +797,12 @@ def check_orth(tn, Y0, scales, k, stab, form=None):
             Zn[kk] = Zn[kk] * 2.0 ** shift       # only the pivot core carries the weight
             DZs = dense(Zn)
         e = float(np.max(np.abs(DZs - D0))) if D0.size else 0.0
-        if e > td * sc + 1e-290:
-            return ('the result does not denote the input tensor (2^p Z != Y)', e, td * sc)
+        if e > td * sc + nat + 1e-290:
+            return ('the result does not denote the input tensor (2^p Z != Y)', e, td * sc + nat)
         # the pivot core carries the norm
         nz = float(np.linalg.norm((np.asarray(Z[kk], dtype=float) * 2.0 ** (shift if abs(shift) <= 1000 else 0)).ravel()))
         ny = float(np.linalg.norm(D0.ravel()))
-        if abs(nz - ny) > td * ny + 1e-290:
+        if abs(nz - ny) > td * ny + nat + 1e-290:
             return ('the pivot core does not carry the Frobenius norm', nz, ny)
     if stab:
         for m in range(d):
@@ -792,6 +813,87 @@ def check_orth(tn, Y0, scales, k, stab, form=None):
             mx = float(np.max(np.abs(Z[kk])))
             if not (mx == 0.0 or (1 - (2.0 ** -20 if lo else 2.0 ** -52) <= mx < 2)):
                 return ('max-modulus of the pivot core is not in [1, 2) with use_stab', mx, '[1,2)')
+    return None
+
+
+def close_tt(A, B, tol):
+    """cores of two TT-tensors agree (shapes exactly, entries to tol relative to the core)"""
+    if len(A) != len(B):
+        return 'different number of cores'
+    for j, (G, H) in enumerate(zip(A, B)):
+        G, H = np.asarray(G, dtype=float), np.asarray(H, dtype=float)
+        if G.shape != H.shape:
+            return f'core {j}: shapes {G.shape} / {H.shape}'
+        sc = float(np.max(np.abs(G))) if G.size else 0.0
+        if G.size and float(np.max(np.abs(G - H))) > tol * sc:
+            return f'core {j}: entries differ by {float(np.max(np.abs(G - H))):.3g} (scale {sc:.3g})'
+    return None
+
+
+def check_history(tn, Y0, scales, ks, stab, form=None):
+    """HISTORIES: (a) orthogonalize applied repeatedly (pivots ks, the last one twice = idempotence) to its own result:
+    every call keeps the tensor and all clauses; (b) a second call on the SAME argument objects; (c) the sweep done by
+    hand with in-place single steps (+ core_stab) equals orthogonalize; (d) the same with the copying single steps,
+    whose arguments must stay bit-identical."""
+    form = norm_form(form)
+    lo = has_f32(form)
+    Y = build(Y0, scales, form)
+    snap = [G.copy() for G in Y]
+    d = len(Y)
+
+    def call(X, k):
+        return tn.orthogonalize(X, wrap_k(k, form['kform']), use_stab=True) if stab else tn.orthogonalize(X, wrap_k(k, form['kform']))
+    # (a)
+    cur, cs = Y, list(scales)
+    first = None
+    for t, k in enumerate(ks):
+        csnap = [np.array(G, copy=True) for G in cur]
+        r = call(cur, k)
+        if any(not same_bytes(a, b) for a, b in zip(cur, csnap)):
+            return (f'call {t} (pivot {k}) of a chain of orthogonalize calls modified its argument', None, None)
+        f = verify_orth(csnap, cs, r, k, stab, lo)
+        if f:
+            return (f'call {t} (pivot {k}) of a chain of orthogonalize calls on its own result: ' + f[0], f[1], f[2])
+        if first is None:
+            first = r
+        cur = r[0] if stab else r
+        tot = sum(cs)
+        cs = [0] * d
+        if not stab:
+            cs[k] = tot
+    # (b) the same argument objects again, other pivot
+    r = call(Y, ks[-1])
+    if any(not same_bytes(a, b) for a, b in zip(Y, snap)):
+        return ('second orthogonalize call on the same argument objects modified them', None, None)
+    f = verify_orth(snap, scales, r, ks[-1], stab, lo)
+    if f:
+        return ('second orthogonalize call on the same argument objects: ' + f[0], f[1], f[2])
+    # (c), (d) the sweep by hand for the first pivot
+    k = ks[0]
+    Z1, p1 = (first[0], int(first[1])) if stab else (first, 0)
+    tol = 1e-5 if lo else 1e-12
+    for inplace in (True, False):
+        Zh, p = [G.copy() for G in Y], 0
+        for side, idxs in (('left', range(k)), ('right', range(d - 1, k, -1))):
+            f_ = tn.orthogonalize_left if side == 'left' else tn.orthogonalize_right
+            for i in idxs:
+                before = [G.copy() for G in Zh]
+                if inplace:
+                    out = f_(Zh, i, inplace=True)
+                    if out is not Zh:
+                        return ('in-place step of a hand-made sweep does not return its argument', None, None)
+                else:
+                    out = f_(Zh, i)
+                    if any(not same_bytes(a, b) for a, b in zip(Zh, before)):
+                        return ('copying step of a hand-made sweep modified its argument', i, None)
+                    Zh = out
+                j2 = i + 1 if side == 'left' else i - 1
+                if stab:
+                    Zh[j2], p = tn.core_stab(Zh[j2], p)
+        w = close_tt(Z1, Zh, tol)
+        if w or int(p) != p1:
+            return (f'orthogonalize differs from the sweep made by hand with {"in-place" if inplace else "copying"} '
+                    f'single steps: {w or "exponent p"}', [int(p)], [p1])
     return None
 
 
@@ -837,8 +939,9 @@ def check_step(tn, Y, side, i, inplace, form=None):
     D0, D1 = dense(snap), dense(Z)
     sc = float(np.max(np.abs(D0))) if D0.size else 0.0
     e = float(np.max(np.abs(D1 - D0))) if D0.size else 0.0
-    if e > td * sc + 1e-290:
-        return (f'orthogonalize_{side} changed the tensor', e, td * sc)
+    nat = float(np.prod([np.linalg.norm(np.asarray(G_, dtype=float).ravel()) for G_ in snap])) * (1e-6 if lo else 1e-13)
+    if e > td * sc + nat + 1e-290:
+        return (f'orthogonalize_{side} changed the tensor', e, td * sc + nat)
     return None
 
 
@@ -871,6 +974,8 @@ def run_oracle(tn, inp):
     try:
         if kind == 'orthogonalize':
             return check_orth(tn, Y0, scales, k, flag, form)
+        if kind == 'history':
+            return check_history(tn, Y0, scales, k, flag, form)
         if kind in ('left', 'right'):
             return check_step(tn, build(Y0, scales, form), kind, k, flag, form)
         return check_reject(tn, Y0, kind[len('reject-'):], k, form)
@@ -1014,6 +1119,33 @@ def search(R, ctx, deep, hints):
                         cand.append(['left', D, scales, rng.randrange(d - 1), True, fl])
                         cand.append(['right', D, scales, rng.randrange(1, d), True, fl])
                         cand.append(['right', D, scales, rng.randrange(1, d), False, fm])
+        # (e) HISTORIES: chains of calls on the own result (last pivot twice), repeated calls on the same objects, the
+        #     sweep by hand with in-place / copying single steps
+        for stab in ((True, False) if pl else (True,)):
+            k1, k2 = rng.randrange(d), rng.randrange(d)
+            cand.append(['history', D, scales, [k1, k2, k2], stab, base if rng.random() < 0.5 else rand_form(rng, fam, scales)])
+        if t % 4 == 2:
+            for k1 in sorted({0, d - 1}):
+                cand.append(['history', D, scales, [k1, d - 1 - k1, d - 1 - k1], True, base])
+        # (f) degenerate shapes, systematically: a zero core at EVERY position, mode size 1 AT the pivot, every pivot
+        if t % 5 == 2 and not any(scales):
+            for j in range(d):
+                Yz = [G.copy() for G in Y0]
+                Yz[j][...] = 0.0
+                Dz = tt_desc(Yz)
+                for k in range(d):
+                    cand.append(['orthogonalize', Dz, scales, k, bool((j + k) % 2), base])
+                cand.append(['history', Dz, scales, [j, d - 1 - j, d - 1 - j], True, base])
+            for k in range(d):
+                Y1 = [G.copy() for G in Y0]
+                Y1[k] = Y1[k][:, :1, :]
+                D1 = tt_desc(Y1)
+                for stab in (True, False):
+                    cand.append(['orthogonalize', D1, scales, k, stab, base])
+                if k < d - 1:
+                    cand.append(['left', D1, scales, k, True, base])
+                if k > 0:
+                    cand.append(['right', D1, scales, k, False, base])
         # (d) rejection, every pivot type
         if t % 4 == 0:
             for kf in KFORMS:
@@ -1046,7 +1178,10 @@ def search(R, ctx, deep, hints):
                               'frame (all other cores bitwise, aliased ones included) / in-place behaviour of the single '
                               'steps, rejection; argument forms: pivot as int / np.int64 / np.int32 / np.intp / 0-d array / '
                               'None, cores C- / F-ordered / non-contiguous views / int64 / float32 (mixed per core), the same '
-                              'array object several times in the list, list / tuple',
+                              'array object several times in the list, list / tuple; histories: chains of calls on the own '
+                              'result (idempotence), repeated calls on the same objects, sweeps by hand with in-place / '
+                              'copying steps = orthogonalize; a single core at 2^+-(400..480), a zero core at every position, '
+                              'mode size 1 at the pivot',
                          evaluations=n_eval, failures=len(fails) - n_known, known_finding_cases=n_known, deep=deep))
     return fails
 
